@@ -140,6 +140,8 @@ def build_topology(g, prop):
         tmpl = rng.choice(["contended_fanout", "contended_fanin"])
     if prop in ("C09", "C17", "C03", "C10") and rng.random() < 0.2:
         tmpl = "combiner"
+    if prop in ("C10", "C15", "C06", "C03", "C20") and rng.random() < 0.1:
+        tmpl = "splitter_fanin"
     if prop == "C16":
         tmpl = "combiner"
     if prop in ("C08", "C15") and tmpl in ("combiner", "sinkfanin") and rng.random() < 0.6:
@@ -252,6 +254,14 @@ def build_topology(g, prop):
             e["delay"] = rng.choice([0, 0, gap, 2 * gap])
             e["cap"] = rng.choice([1, 2])
         end(m)
+    elif tmpl == "splitter_fanin":
+        # a splitter fed by several pallet sources (empty pallets): its reserve-on-all / cancel-the-rest input side
+        sp = g.splitter()
+        for _ in range(rng.choice([2, 2, 3])):
+            ps = g.source(flow="pallet", n_items=rng.choice([3, 6, 10]))
+            g.edge(ps, sp)
+        for _ in range(rng.choice([1, 2])):
+            end(sp)
     elif tmpl == "combiner":
         n_ing = rng.choice([1, 1, 2, 3])
         recipe = [1] + [rng.choice([1, 1, 2, 3]) for _ in range(n_ing)]
